@@ -305,7 +305,7 @@ updater/fetch.go on every run. The theorems below are about whatever the source 
     error, and a required signature matches the bytes written. -/
 theorem fetch_publish_iff (v : Option Verif) (r : Resp) :
     (fetchDecision v r).publishes = true ↔
-      (∀ x, v = some x → x.policy = .require → x.sigOk = true ∧ x.hashOk = true) ∧
+      (∀ x, v = some x → x.policy = .require → x.sigOk = true ∧ r.digestOk = true) ∧
       r.reqErr = false ∧ PB.Gen.FsDownload.statusRefused (r.status : Int) = false ∧ r.copyErr = false ∧
       PB.Gen.FsDownload.lengthRefused r.contentLength r.got = false := by
   unfold fetchDecision
@@ -313,8 +313,8 @@ theorem fetch_publish_iff (v : Option Verif) (r : Resp) :
   | none => cases r.reqErr <;> cases PB.Gen.FsDownload.statusRefused (r.status : Int) <;> cases r.copyErr <;>
       cases PB.Gen.FsDownload.lengthRefused r.contentLength r.got <;> simp [Outcome.publishes]
   | some x =>
-    obtain ⟨pol, sigOk, hashOk⟩ := x
-    cases pol <;> cases sigOk <;> cases hashOk <;> cases r.reqErr <;>
+    obtain ⟨pol, sigOk⟩ := x
+    cases pol <;> cases sigOk <;> cases r.digestOk <;> cases r.reqErr <;>
       cases PB.Gen.FsDownload.statusRefused (r.status : Int) <;> cases r.copyErr <;>
       cases PB.Gen.FsDownload.lengthRefused r.contentLength r.got <;> simp [Outcome.publishes]
 
@@ -373,9 +373,9 @@ theorem fetch_refuses_transparent_gzip (v : Option Verif) (w : Wire) (h : w.gzip
     rw [h] at hg; cases hg
 
 /-- With a required signature nothing is published unless the signature was verified and the bytes written have
-    the signed hash. -/
+    the signed hash (so a truncated or altered body is refused even if every other guard were to let it pass). -/
 theorem fetch_required_signature (x : Verif) (hx : x.policy = .require) (r : Resp)
-    (h : (fetchDecision (some x) r).publishes = true) : x.sigOk = true ∧ x.hashOk = true :=
+    (h : (fetchDecision (some x) r).publishes = true) : x.sigOk = true ∧ r.digestOk = true :=
   ((fetch_publish_iff (some x) r).1 h).1 x rfl hx
 
 /-- Not vacuous: a complete, announced 200 response IS published (extra bytes after the announced ones and the
@@ -389,17 +389,18 @@ theorem fetch_complete_is_published (w : Wire) (l : Nat) (hc : w.complete l) (hs
     PB.Gen.FsDownload.lengthRefused]
 
 def mkWire (status : Nat) (f : Framing) (arrived : Nat) (e : Ending) : Wire :=
-  { connects := true, status := status, framing := f, gzip := false, arrived := arrived, ending := e, plain := 0, gzipOk := true }
+  { connects := true, status := status, framing := f, gzip := false, arrived := arrived, ending := e, plain := 0, gzipOk := true,
+    digestOk := true }
 
 /-- The seeded case, concretely: 200, no Content-Length, no chunking, connection closed after 102400 of 1048576
     bytes — refused. -/
 example : fetchDecision none (transport (mkWire 200 .close 102400 .fin)) = .abort := by decide
 example : fetchDecision none (transport (mkWire 200 (.length 1048576) 102400 .fin)) = .abort := by decide
 example : fetchDecision none (transport (mkWire 206 (.length 100) 100 .fin)) = .abort := by decide
-example : fetchDecision (some ⟨.require, true, false⟩) (transport (mkWire 200 (.length 100) 100 .fin)) = .abort := by decide
-example : fetchDecision (some ⟨.warn, true, false⟩) (transport (mkWire 200 (.length 100) 100 .fin)) = .publish false := by decide
-example : fetchDecision (some ⟨.require, true, true⟩) (transport (mkWire 200 (.length 100) 100 .fin)) = .publish true := by decide
-example : fetchDecision (some ⟨.require, false, true⟩) (transport (mkWire 200 (.length 100) 100 .fin)) = .refusedEarly := by decide
+example : fetchDecision (some ⟨.require, true⟩) (transport { mkWire 200 (.length 100) 100 .fin with digestOk := false }) = .abort := by decide
+example : fetchDecision (some ⟨.warn, true⟩) (transport { mkWire 200 (.length 100) 100 .fin with digestOk := false }) = .publish false := by decide
+example : fetchDecision (some ⟨.require, true⟩) (transport (mkWire 200 (.length 100) 100 .fin)) = .publish true := by decide
+example : fetchDecision (some ⟨.require, false⟩) (transport (mkWire 200 (.length 100) 100 .fin)) = .refusedEarly := by decide
 
 /-- System-call level, unbounded (every file system state, every pattern of failing calls and every stopping
     point, every chunking, every list of folders, any number of attempts, DownloadUpdates or GetFile, with or
